@@ -24,6 +24,12 @@ MUTATING_METHODS = {'append', 'extend', 'update', 'pop', 'remove', 'clear', 'ins
                     'popitem', 'sort', 'reverse'}
 
 
+def _depth(n, d=0):
+    if not isinstance(n, tuple) or d > 9:
+        return d
+    return max([_depth(x, d + 1) for x in n] or [d + 1])
+
+
 def const(v):
     if v is None:
         return NONE
@@ -60,6 +66,9 @@ class State(object):
         s = self.copy()
         if State.strip_deps and value.deps:
             value = value._replace(deps=EMPTY)
+        if _depth(value.name) > 7:
+            # widening: names nest when a variable is redefined in terms of itself in a loop
+            value = V('sym', ('widened',) + tuple(str(p) for p in path), value.deps)
         s.env[path] = value
         return s
 
@@ -583,7 +592,7 @@ class Domain(object):
         elif isinstance(s, ast.AugAssign):
             cur = self.eval(s.target, fr, state) if not isinstance(s.target, ast.Name) else self.lookup_name(s.target.id, fr, state)
             v = self.eval(s.value, fr, state)
-            nv = sym(('aug', type(s.op).__name__, cur.name, v.name), set(cur.deps) | set(v.deps))
+            nv = sym(('aug', type(s.op).__name__, fr.id, self.site(s)), set(cur.deps) | set(v.deps))
             st = self.assign(s.target, nv, fr, state, node)
         elif isinstance(s, ast.Return):
             st = state.set(('RV', fr.id), self.eval(s.value, fr, state))
